@@ -67,8 +67,15 @@ def jsonFieldName (f : FieldInfo) : Bytes :=
 /-- `isPromotedStruct` -/
 def isPromotedStruct (f : FieldInfo) : Bool := f.anonymous && f.jsonTag.isEmpty && f.structy
 
-/-- does `buildFieldMap` enter field `f` under `name`: not `json:"-"`, JSON name non-empty and equal -/
+/-- does `buildFieldMap` enter field `f` under `name`: not `json:"-"`, not a promoted embedded struct (it has no
+    JSON name of its own: after the `fix:` commit for K05m it is kept under a key no member name collides with),
+    JSON name non-empty and equal -/
 def mapsTo (f : FieldInfo) (name : Bytes) : Bool :=
+  f.jsonTag != ['-'] && !isPromotedStruct f && !(jsonFieldName f).isEmpty && jsonFieldName f == name
+
+/-- as shipped (K05m): a promoted embedded struct was entered under its Go name and could take the entry of an
+    earlier field tagged with that name -/
+def mapsToAsIs (f : FieldInfo) (name : Bytes) : Bool :=
   f.jsonTag != ['-'] && !(jsonFieldName f).isEmpty && jsonFieldName f == name
 
 /-- `buildFieldMap(structType)[name]`: the map is filled in field order, a later field with the same JSON
@@ -78,6 +85,10 @@ def fieldIndexFrom (name : Bytes) : List (FieldInfo × Shape) → Nat → Option
   | (f, _) :: rest, i, acc => fieldIndexFrom name rest (i + 1) (if mapsTo f name then some i else acc)
 
 def fieldIndex (fields : List (FieldInfo × Shape)) (name : Bytes) : Option Nat := fieldIndexFrom name fields 0 none
+
+/-- `buildFieldMap(structType)[name]` as shipped (K05m) -/
+def fieldIndexAsIs (fields : List (FieldInfo × Shape)) (name : Bytes) : Option Nat :=
+  (fields.zipIdx).foldl (fun acc fi => if mapsToAsIs fi.1.1 name then some fi.2 else acc) none
 
 /-- `fieldMap[name]` found and the field is not a promoted struct: the field and its value -/
 def directField (fields : List (FieldInfo × Shape)) (name : Bytes) : Option (Nat × FieldInfo × Shape) :=
@@ -211,7 +222,8 @@ def valDeref : Shape → Option Shape
     for it (the last one entered), never a `json:"-"` field; the iteration order of the map is immaterial -/
 def mappedFields (fields : List (FieldInfo × Shape)) : List (Bytes × FieldInfo × Shape) :=
   (fields.zipIdx).filterMap fun ((f, s), i) =>
-    if mapsTo f (jsonFieldName f) && fieldIndex fields (jsonFieldName f) == some i then some (jsonFieldName f, f, s)
+    if isPromotedStruct f then some ([], f, s)   -- every promoted struct is in the map (its key plays no part)
+    else if mapsTo f (jsonFieldName f) && fieldIndex fields (jsonFieldName f) == some i then some (jsonFieldName f, f, s)
     else none
 
 /-- the paths whose values printing the value reveals, as `coversValue` walks them: the path itself; below a
